@@ -222,7 +222,9 @@ Proof.
       assert (v1 = v2). { specialize (H k1). simpl in H. rewrite str_eqb_refl in H. congruence. }
       subst v2. f_equal. apply IH; try (eapply sorted_tail; eauto).
       intros k. destruct (str_eqb_spec k k1) as [->|Hn].
-      * rewrite !lookup_lt_all; auto; intros; eapply sorted_head_lt; eauto.
+      * rewrite (lookup_lt_all k1 m1) by (intros; eapply sorted_head_lt; [exact H1|eauto]).
+        rewrite (lookup_lt_all k1 m2) by (intros; eapply sorted_head_lt; [exact H2|eauto]).
+        reflexivity.
       * specialize (H k). simpl in H. apply str_eqb_false in Hn. rewrite Hn in H. exact H.
     + exfalso. specialize (H k1). simpl in H. rewrite str_eqb_refl in H.
       rewrite (klt_neq k1 k2 C) in H. rewrite lookup_lt_all in H; [discriminate|].
@@ -237,7 +239,6 @@ Lemma lookup_insert k v m k' :
 Proof.
   induction m as [|[k1 v1] m IH]; simpl; [reflexivity|].
   destruct (str_cmp k k1) eqn:C; simpl.
-  - reflexivity.
   - apply str_cmp_eq in C. subst k1. destruct (str_eqb k' k); reflexivity.
   - reflexivity.
   - rewrite IH. destruct (str_eqb_spec k' k1) as [->|Hn]; [|reflexivity].
